@@ -15,8 +15,20 @@ const (
 	PArray
 	PBoolNil
 	PBigInt // integers beyond 2^53 (never indexed, never compared with floats by construction of literals)
+	PEdge   // values whose order-preserving encodings end in 0xFF / 0x00 bytes, and their neighbours (inside the key domain)
 	nProfiles
 )
+
+// edgeValues: encodings with trailing 0xFF / 0x00 bytes, adjacent representable values, all within 2^53 / after 1970.
+var edgeValues = []any{
+	int64(1<<53 - 1), int64(1<<53 - 2), float64(1<<53 - 1), int64(1 << 53), int64(-(1<<53 - 1)), int64(-(1 << 53)),
+	float64(1.9999999999999998), float64(2), float64(2.0000000000000004), float64(-1.9999999999999998), float64(-2),
+	int64(255), int64(256), int64(65535), int64(65536), float64(255.99999999999997), float64(0.49999999999999994), float64(0.5),
+	math.MaxFloat64, -math.MaxFloat64, math.SmallestNonzeroFloat64, float64(0),
+	time.Unix(1_600_000_000, 255).UTC(), time.Unix(1_600_000_000, 256).UTC(), time.Unix(1_600_000_000, 254).UTC(), time.Unix(1_600_000_000, 511).UTC(), time.Unix(0, 255).UTC(), time.Unix(0, 0).UTC(),
+	"a\xff", "a\xff\xff", "a\xfe", "b", "a", "a\x00", "\xff",
+	uint64(1<<53 - 1), uint64(255),
+}
 
 type Profile struct {
 	Kind   int
@@ -180,12 +192,14 @@ func (r *Rng) Value(p Profile) any {
 			return r.BigInt()
 		}
 		return int64(r.Range(-3, 12))
+	case PEdge:
+		return Pick(r, edgeValues)
 	}
 	return r.Nested(2)
 }
 
 func (r *Rng) Profile() Profile {
-	kinds := []int{PSmallInt, PSmallInt, PMixedNum, PMixedNum, PString, PTime, PMixed, PMixed, PArray, PBoolNil, PSmallInt, PMixedNum, PBigInt}
+	kinds := []int{PSmallInt, PSmallInt, PMixedNum, PMixedNum, PString, PTime, PMixed, PMixed, PArray, PBoolNil, PSmallInt, PMixedNum, PBigInt, PEdge}
 	p := Profile{Kind: Pick(r, kinds)}
 	switch r.Intn(4) {
 	case 0:
